@@ -1,5 +1,7 @@
 import Proofs.Drex
 import ModelR.Solver
+import Proofs.Solver
+import Properties.C09
 /-! # C07 — null forcing leaves the texture unchanged; unsupported regimes are rejected
 
 Theorems about `ModelR.derivatives` (dispatch on raw ordinals, all integers), `ModelR.evalRhs`
@@ -118,5 +120,75 @@ theorem update_appends_one (m : Mineral) (chi : ℝ) (rs : List (List ℝ)) (hrs
   refine ⟨(extractVars m.n (postStep chi m.n (lastA m) raw)).2,
     (extractVars m.n (postStep chi m.n (lastA m) raw)).1, ?_⟩
   simp [updateWith, hraw]
+
+/-- a valid texture: entries in [-1, 1], fractions on the simplex -/
+def ValidTex (t : Tex) : Prop :=
+  (∀ a ∈ t.A, ∀ i j, -1 ≤ a i j ∧ a i j ≤ 1) ∧ (∀ x ∈ t.f, 0 ≤ x) ∧ t.f.sum = 1
+
+theorem clip_id (x : ℝ) (h : -1 ≤ x ∧ x ≤ 1) : clip (-1) 1 x = x := by
+  unfold clip
+  split_ifs with h1 h2 <;> linarith [h.1, h.2]
+
+/-- `extract_vars` is the identity on a valid texture -/
+theorem extractTex_id (t : Tex) (hv : ValidTex t) : extractTex t = t := by
+  obtain ⟨hA, hpos, hsum⟩ := hv
+  have hf := extract_id_on_simplex t.f t.A hpos hsum
+  have hAid : t.A.map (fun a => fun i j => clip (-1) 1 (a i j)) = t.A := by
+    conv_rhs => rw [← List.map_id t.A]
+    apply List.map_congr_left
+    intro a ha
+    funext i j
+    exact clip_id _ (hA a ha i j)
+  cases t with
+  | mk A f =>
+    simp only [extractTex] at hf ⊢
+    simp only at hAid
+    rw [hAid]
+    congr 1
+
+/-- `apply_gbs` is the identity on a valid texture none of whose grains is below the floor -/
+theorem applyGbs_id (chi : ℝ) (n : ℕ) (prev : List Mat3) (t : Tex) (hv : ValidTex t)
+    (hA : t.A.length = t.f.length) (hp : prev.length = t.f.length)
+    (hfloor : ∀ x ∈ t.f, ¬ x < chi / n) : applyGbs chi n prev t = t := by
+  obtain ⟨_, hpos, hsum⟩ := hv
+  have hfl : gbsFloored (chi / n) t.f = t.f := by
+    simp only [gbsFloored]
+    conv_rhs => rw [← List.map_id t.f]
+    apply List.map_congr_left
+    intro x hx
+    simp [hfloor x hx]
+  have hf : (applyGbs chi n prev t).f = t.f := by
+    rw [applyGbs_f, hfl, hsum]
+    conv_rhs => rw [← List.map_id t.f]
+    apply List.map_congr_left
+    intro x _; simp
+  have hAeq : (applyGbs chi n prev t).A = t.A := by
+    apply List.ext_getElem
+    · simp [applyGbs, hA, hp]
+    · intro i h1 h2
+      have hif : i < t.f.length := by omega
+      exact unmasked_keeps_own chi n prev t i h2 (by omega) hif (hfloor _ (List.getElem_mem _))
+  cases t with
+  | mk A f =>
+    have e : applyGbs chi n prev ⟨A, f⟩ = ⟨(applyGbs chi n prev ⟨A, f⟩).A, (applyGbs chi n prev ⟨A, f⟩).f⟩ := rfl
+    rw [e, hf, hAeq]
+
+/-- **null forcing leaves the texture unchanged**: when the solver vector still holds the valid
+texture the update started from (which every integrator produces from identically zero texture
+rates) and no grain is below the sliding floor, `perform_step`'s post-processing is the identity,
+so the snapshot appended by the update IS the previous snapshot. -/
+theorem null_run_constant (chi : ℝ) (n : ℕ) (prev : List Mat3) (F : Mat3) (t : Tex)
+    (hv : ValidTex t) (hA : t.A.length = n) (hf : t.f.length = n) (hp : prev.length = n)
+    (hfloor : ∀ x ∈ t.f, ¬ x < chi / n) :
+    postStep chi n prev (packY F t) = packY F t ∧ extractVars n (packY F t) = (F, t) := by
+  have hx : extractVars n (packY F t) = (F, t) := by
+    unfold extractVars
+    rw [unpackY_packY n F t hA hf]
+    simp [extractTex_id t hv]
+  refine ⟨?_, hx⟩
+  unfold postStep
+  rw [hx]
+  simp only
+  rw [applyGbs_id chi n prev t hv (by omega) (by omega) hfloor]
 
 end ModelR
